@@ -7,6 +7,27 @@ ALL = ["C%02d" % i for i in range(1, 21)]
 
 # id -> (level category, technique, level text, level note, design ref)
 CHECKS = {
+    "C05": (
+        "model_checking",
+        "bounded-exhaustive enumeration of grammars x cost vectors x erroneous inputs; every reported repair sequence replayed through an independent LR driver over the public table; differential re-parse of the repaired input",
+        "For every grammar of the universes and families (tables with conflicts included), every cost vector and every input up to the bound, the real CPCT+ parser runs in a watched child process under a deterministic step budget. An independent LR driver over the public action/goto interface reproduces every error configuration (position and state are cross-checked with the reported error), applies every reported sequence of every error and requires three further shifts or acceptance; it then applies the first sequence, predicts the position of the next error, the final outcome, the exact leaves of the returned tree (inserted tokens zero-length, faulty, at the next real lexeme) and, on conflict-free tables, re-parses the repaired input from scratch with recovery off and requires the identical tree.",
+        "TRY_PARSE_AT_MOST (250) never binds at these input lengths. The from-scratch re-parse is only required on conflict-free tables (elsewhere reductions made under the erroneous lookahead are irrevocable and need not be those of a fresh parse). Parses that do not return are C07's subject.",
+        "DESIGN.md 3/C05",
+    ),
+    "C06": (
+        "model_checking",
+        "explicit-state exhaustive search over repair sequences (Insert/Delete/Shift moves from the error configuration) as reference for every reported repair set",
+        "Same space as C05 plus every %avoid_insert subset on the smallest grammars. For every reported error an explicit-state search enumerates every edit sequence individually (no merging, no buckets) by increasing cost up to the first cost with a success, ranks the successes by the distance parsing continues, strips trailing shifts and de-duplicates; the reported list must have exactly that cost and be exactly that set, contain no duplicate, no trailing shift, no end-of-input insertion, list %avoid_insert sequences last and shorter sequences first inside each group.",
+        "Reference search bounded by cost 12 / 400k nodes per error (cases beyond are counted, never judged). Sequences the implementation reports but that do not replay are attributed to C05.",
+        "DESIGN.md 3/C06",
+    ),
+    "C07": (
+        "model_checking",
+        "bounded-exhaustive enumeration of acyclic grammars x inputs (incl. repeated-error inputs) under a watched process per grammar; progress and outcome invariants on every returned error list; termination by watchdog + memory limit",
+        "Every acyclic grammar of the universes and families, every input up to the bound plus 2-4 fold repetitions of every short input (many independent errors), parsed by the real recovering parser in watched child processes (per-parse progress marks, time and memory limits). Every returned result must have strictly increasing error positions at least three lexemes (or the rest of the input) apart, at most |input|+1 errors, repairs on every error but the last, a value iff every error has a repair, and an Earley-accepted input when there is a value and no error. A parse that does not return is a violation unless explained by the listed known finding (reduction loop in the table, detected by the reference driver and confirmed on the real parser).",
+        "Quick tier: grammars whose table has a reduction loop (known finding C07-a) only get the plain-parse screen. Wall budget replaced by a step budget (H1/H2); all invariants hold whatever the budget.",
+        "DESIGN.md 3/C07",
+    ),
     "C01": (
         "model_checking",
         "bounded-exhaustive enumeration of grammars x token strings; real parser vs Earley recogniser and derivation-tree validator",
